@@ -516,7 +516,7 @@ func c18Check(c *Ctx, p *Prog, m *Model) {
 							if l, ok := linOf(sl.Low); ok && int(l.c) <= len(s) && len(l.atoms) == 1 {
 								// c + idx with idx >= 0 checked below
 								for at := range l.atoms {
-									if idxNonNeg(at, b) {
+									if idxNonNeg(at, b, 0) {
 										just = fmt.Sprintf("HasPrefix(x, %q) and index >= 0", s)
 									}
 								}
@@ -530,7 +530,7 @@ func c18Check(c *Ctx, p *Prog, m *Model) {
 			// x[strings.Index*(x, ..):] under a test that the index was found
 			if call, ok := sl.Low.(*ssa.Call); ok && just == "" && sl.High == nil {
 				if cal2 := calleeOf(call); cal2 != nil && cal2.Pkg != nil && cal2.Pkg.Pkg.Path() == "strings" && (strings.HasPrefix(cal2.Name(), "Index") || strings.HasPrefix(cal2.Name(), "LastIndex")) {
-					if call.Common().Args[0] == sl.X && idxNonNeg(call, b) {
+					if call.Common().Args[0] == sl.X && idxNonNeg(call, b, 0) {
 						just = "an index found in the same string"
 					}
 				}
@@ -675,28 +675,6 @@ func shortBlockRole(call *ssa.Call, m *Model) string {
 		return "top"
 	}
 	return strings.Join(dedupStr(ds), "+")
-}
-
-func idxNonNeg(v ssa.Value, b *ssa.BasicBlock) bool {
-	for _, g := range guardsOf(b) {
-		cond, neg := normCond(g.If.Cond)
-		if bo, ok := cond.(*ssa.BinOp); ok && bo.X == v {
-			z, isC := constInt(bo.Y)
-			if !isC {
-				continue
-			}
-			if (g.Succ == 0) != neg { // the comparison holds
-				if (bo.Op == token.GEQ && z == 0) || (bo.Op == token.GTR && z >= -1) {
-					return true
-				}
-			} else { // the comparison does not hold
-				if (bo.Op == token.LSS && z <= 0) || (bo.Op == token.LEQ && z <= -1) {
-					return true
-				}
-			}
-		}
-	}
-	return false
 }
 
 // dependsDirect: v is computed from target without passing through a phi (i.e. within one loop iteration).
